@@ -13,7 +13,7 @@ func init() {
 	register(&propDef{
 		id: "C07",
 		meta: propMeta{
-			explanation: "Byte-for-byte fidelity over all chunkings is a runtime-value property and is NOT decided. Decided: the structural half of 'closing either end releases both legs' and necessary conditions of fidelity in the adapter. (R1) every function that runs two goroutines calling io.Copy (role; four siblings today) copies in both directions between the same two connections, each goroutine defers Close of its own destination and Done on the shared WaitGroup, with Add(2) before and Wait after; (R2) websocket.Conn.Read asks for the next message only when no partially read message is retained, drops the retained reader only after that reader reported an error/EOF, stores only binary-message readers, hands the caller's buffer to the reader and returns its byte count unchanged; (R3) Conn.Write sends the caller's slice as exactly one binary message and reports len(b) only on success; (R4) no read limit is configured on wrapped WebSocket connections (a limit turns any larger Write of the peer - one message per Write, of unbounded size - into a broken stream), and long-lived forwarded upgrades are exempt from the proxy timeout (C08.R4, run here).",
+			explanation: "Byte-for-byte fidelity over all chunkings is a runtime-value property and is NOT decided. Decided: the structural half of 'closing either end releases both legs' and necessary conditions of fidelity in the adapter. (R1) every function that runs two goroutines calling io.Copy (role; four siblings today) copies in both directions between the same two connections, each goroutine defers Close of its own destination and Done on the shared WaitGroup, with Add(2) before and Wait after; (R2) websocket.Conn.Read asks for the next message only when no partially read message is retained, drops the retained reader only after that reader reported an error/EOF, stores only binary-message readers, hands the caller's buffer to the reader and returns its byte count unchanged; (R3) Conn.Write sends the caller's slice as exactly one binary message and reports len(b) only on success; (R4) no read limit is configured on wrapped WebSocket connections (a limit turns any larger Write of the peer - one message per Write, of unbounded size - into a broken stream), and long-lived forwarded upgrades are exempt from the proxy timeout (C08.R4, run here). Second round: adapter Read decided per path (delivered bytes reported, message EOF never returned, loop drops the exhausted reader); (R5) WebSocket data writes/reads only from the adapter's write/read side; (R6) the dialled leg is released on every path; (R7) both legs are spliced after a successful upgrade; (R8) yamux StreamCloseTimeout not below the library default.",
 			ruleText:    "obligation = one copy-pair function / store / return / call site; distinct = distinct keys",
 			assumptions: []string{"gorilla/websocket delivers message bytes in order and NextReader blocks for the next data message (trusted)", "yamux preserves stream order (trusted)"},
 		},
@@ -34,7 +34,7 @@ func init() {
 	register(&propDef{
 		id: "C18",
 		meta: propMeta{
-			explanation: "Recovery after losing a node is liveness over crash points and is NOT decided. Decided: (R1) Server.Shutdown performs, on every path and in this order, SetReady(false), upstream shutdown, proxy shutdown, gossip Leave, gossip Close, admin shutdown, each bounded by the one context built from conf.GracePeriod (so the whole shutdown is bounded by the grace period); (R2) Gossip.Leave publishes the local leave marker before contacting any peer, leave() sends the full local delta, the receiving stream handler applies it (C03.R1), a delta reply covers every node of the request that is known including departed ones (so notified nodes relay the departure), and only the owner's marker makes a node left (C11.R3, run here); (R3) the listener's accept loop stops only for a local reason - the caller's context or the listener's own close context being done, or a failed reconnect - never because of an error value that piko's own transport adapter produces for a peer-originated close (this rule found defect D4); reconnecting retries without a retry limit.",
+			explanation: "Recovery after losing a node is liveness over crash points and is NOT decided. Decided: (R1) Server.Shutdown performs, on every path and in this order, SetReady(false), upstream shutdown, proxy shutdown, gossip Leave, gossip Close, admin shutdown, each bounded by the one context built from conf.GracePeriod (so the whole shutdown is bounded by the grace period); (R2) Gossip.Leave publishes the local leave marker before contacting any peer, leave() sends the full local delta, the receiving stream handler applies it (C03.R1), a delta reply covers every node of the request that is known including departed ones (so notified nodes relay the departure), and only the owner's marker makes a node left (C11.R3, run here); (R3) the listener's accept loop stops only for a local reason - the caller's context or the listener's own close context being done, or a failed reconnect - never because of an error value that piko's own transport adapter produces for a peer-originated close (this rule found defect D4); reconnecting retries without a retry limit. Second round: (R7) a dial that failed without any HTTP response is always retryable.",
 			ruleText:    "obligation = one path class / call argument / return; distinct = distinct keys",
 			assumptions: []string{"pkg/websocket maps a peer close or abnormal EOF to net.ErrClosed and yamux propagates the receive loop's error as the session's shutdown error (read from the sources; see DESIGN.md)"},
 		},
